@@ -11,7 +11,11 @@ macro_rules | `(tactic| hspecOld) => `(tactic| exact T.get)
 
 
 theorem inv_level {s : PState} (hi : Inv src s) (l : Int) : Inv src { s with exprLevel := l } :=
-  ⟨hi.src_eq, hi.mark⟩
+  hi.congr rfl rfl rfl
+
+/-- what a comment token returned by the scanner satisfies w.r.t. the comments already listed -/
+@[reducible] def CommentFacts (a : Option (Nat × Token)) (s : PState) : Prop :=
+  ∀ p t, a = some (p, .comment t) → (∀ c ∈ s.comments.toList, c.pos < p) ∧ p < s.scan.pos
 
 theorem incExprLevel_spec : T src Tr incExprLevel (fun _ _ => True) := by
   unfold incExprLevel
@@ -33,39 +37,74 @@ theorem takeCurrent_spec : T src Tr takeCurrent (fun _ _ => True) := by
   hoare
 
 /-- `scan_next` from any state over `src`: afterwards the invariant holds -/
-theorem scanNext_establishes (s : PState) (hs : s.scan.src = src) :
+theorem scanNext_establishes (s : PState) (hs : Inv0 src s) :
     match scanNext s with
-    | (.ok _, s') => Inv src s'
-    | (.error e, s') => isPanic e = false ∧ s'.scan.src = src := by
+    | (.ok a, s') => Inv src s' ∧ CommentFacts a s'
+    | (.error e, s') => isPanic e = false ∧ Inv0 src s' := by
   have e : scanNext s = liftS s.scan.nextToken.1
       { s with prevPos := s.scan.preback, scan := s.scan.nextToken.2, steps := s.steps + 1 } := rfl
   rw [e]
-  have hsrc : s.scan.nextToken.2.src = src := by rw [nextToken_src, hs]
+  have hsrc : s.scan.nextToken.2.src = src := by rw [nextToken_src, hs.src_eq]
+  have hmono := nextToken_pos_mono s.scan
+  have h0 : Inv0 src { s with prevPos := s.scan.preback, scan := s.scan.nextToken.2, steps := s.steps + 1 } :=
+    ⟨hsrc, hs.sorted, fun c hc => Nat.lt_of_lt_of_le (hs.below c hc) hmono⟩
   cases hr : s.scan.nextToken.1 with
   | ok v =>
-    refine ⟨hsrc, ?_⟩
-    intro sc h1 h2 h3
-    exact nextToken_ok_congr s.scan sc (by rw [hs, h1]) h2.symm h3.symm ⟨v, hr⟩
+    refine ⟨⟨h0, ?_⟩, ?_⟩
+    · intro sc h1 h2 h3
+      exact nextToken_ok_congr s.scan sc (by rw [hs.src_eq, h1]) h2.symm h3.symm ⟨v, hr⟩
+    · intro p t hv
+      subst hv
+      have hnt : s.scan.nextToken = (.ok (some (p, .comment t)), s.scan.nextToken.2) := by
+        rw [← hr]
+      obtain ⟨h1, h2⟩ := nextToken_comment s.scan _ p t hnt
+      exact ⟨fun c hc => Nat.lt_of_lt_of_le (hs.below c hc) h1, h2⟩
   | error er =>
     cases er with
-    | scan _ => exact ⟨rfl, hsrc⟩
+    | scan _ => exact ⟨rfl, h0⟩
     | panic site => exact absurd hr (Gosyn.Props.C01.nextToken_no_panic s.scan site)
 
-theorem scanNext_spec : T src Tr scanNext (fun _ _ => True) := by
+theorem scanNext_spec : T src Tr scanNext (fun a s => CommentFacts a s) := by
   intro s hi _
-  have := scanNext_establishes (src := src) s hi.src_eq
+  have := scanNext_establishes (src := src) s hi.toInv0
   cases hsn : scanNext s with
   | mk r s1 =>
     rw [hsn] at this
     cases r with
     | error e => exact this
-    | ok a => exact ⟨this, trivial⟩
+    | ok a => exact this
 
 theorem trueLine_spec {R : PState → Prop} (pos : Nat) : T src R (trueLine pos) (fun _ s => R s) :=
   (T.read (fun s => lineOfTable s.scan.lines pos)).post (fun _ _ h => h.2)
 
+/-- pushing a freshly scanned comment keeps the list strictly increasing and before the scanner -/
+theorem push_comment_inv {s : PState} (hi : Inv src s) (c : Comment)
+    (h1 : ∀ x ∈ s.comments.toList, x.pos < c.pos) (h2 : c.pos < s.scan.pos) :
+    Inv src { s with comments := s.comments.push c } := by
+  refine ⟨⟨hi.src_eq, ?_, ?_⟩, hi.mark⟩
+  · simp only [Array.toList_push, List.map_append, List.map_cons, List.map_nil]
+    rw [List.pairwise_append]
+    refine ⟨hi.sorted, by simp, ?_⟩
+    intro a ha b hb
+    simp only [List.mem_singleton] at hb
+    subst hb
+    obtain ⟨x, hx, rfl⟩ := List.mem_map.1 ha
+    exact h1 x hx
+  · intro x hx
+    simp only [Array.toList_push, List.mem_append, List.mem_singleton] at hx
+    rcases hx with hx | rfl
+    · exact hi.below x hx
+    · exact h2
+
+theorem T.push_comment {R : PState → Prop} (c : Comment)
+    (h : ∀ s, R s → (∀ x ∈ s.comments.toList, x.pos < c.pos) ∧ c.pos < s.scan.pos) :
+    T src R (P.modify fun s => { s with comments := s.comments.push c }) (fun _ _ => True) := by
+  intro s hi hr
+  obtain ⟨h1, h2⟩ := h s hr
+  exact ⟨push_comment_inv hi c h1 h2, trivial⟩
+
 theorem commentLoop_spec : ∀ (fuel line : Nat) (trailing : Option Nat) (posTok : Option (Nat × Token)),
-    T src Tr (commentLoop fuel line trailing posTok) (fun _ _ => True) := by
+    T src (CommentFacts posTok) (commentLoop fuel line trailing posTok) (fun _ _ => True) := by
   intro fuel
   induction fuel with
   | zero => intro line trailing posTok; unfold commentLoop; exact T.throw _ rfl
@@ -73,12 +112,23 @@ theorem commentLoop_spec : ∀ (fuel line : Nat) (trailing : Option Nat) (posTok
     intro line trailing posTok
     unfold commentLoop
     split
-    · hoare
-      all_goals exact T.anyQ (ih _ _ _)
+    · rename_i pos text
+      refine T.bind (trueLine_spec pos) (fun startLine => ?_)
+      dsimp only
+      refine T.ite (fun _ => T.bind (T.modifyF _ (fun _ => ⟨rfl, rfl, rfl⟩) (fun _ h => h)) (fun _ => ?_)) (fun _ => ?_)
+      all_goals (
+        refine T.bind scanPosition_spec (fun ended => ?_)
+        refine T.bind (trueLine_spec ended) (fun line' => ?_)
+        refine T.bind (Q1 := fun _ _ => True)
+          (T.pre (T.push_comment _ (fun s h => h)) (fun s hs => (hs.2 pos text rfl))) (fun _ => ?_)
+        hoare
+        all_goals first | exact ih _ _ _ | skip)
     · hoare
 
 theorem next_spec : T src Tr next (fun _ _ => True) := by
   unfold next
+  hoare
+  all_goals first | exact (commentLoop_spec _ _ _ _).pre (fun s h => h.2) | skip
   hoare
 
 theorem preback_spec {R : PState → Prop} : T src R preback (fun a _ => GoodMark src a) := by
@@ -110,17 +160,27 @@ theorem currentPos_spec {R : PState → Prop} : T src R currentPos (fun _ s => R
   · exact T.pure _ (fun _ h => h.2)
   · exact (scanPosition_spec).post (fun _ _ h => h.2.2)
 
-/-- `goback` to a good mark, from a state of which only the source is known -/
-theorem goback_establishes (prev : Nat × Bool) (hg : GoodMark src prev) (s : PState) (hs : s.scan.src = src) :
+/-- `goback` to a good mark, from a state of which the mark is not known to be good -/
+theorem goback_establishes (prev : Nat × Bool) (hg : GoodMark src prev) (s : PState) (hs : Inv0 src s) :
     match goback prev s with
     | (.ok _, s') => Inv src s'
-    | (.error e, s') => isPanic e = false ∧ s'.scan.src = src := by
-  have hsrc : (s.scan.goback prev).src = src := hs
+    | (.error e, s') => isPanic e = false ∧ Inv0 src s' := by
+  have hsrc : (s.scan.goback prev).src = src := hs.src_eq
   obtain ⟨v, hv⟩ := hg (s.scan.goback prev) hsrc rfl rfl
   let s1 : PState := { s with
     comments := s.comments.filter (·.pos < prev.1),
     leadComments := s.leadComments.filter (·.pos < prev.1),
     scan := s.scan.goback prev }
+  have h01 : Inv0 src s1 := by
+    refine ⟨hsrc, ?_, ?_⟩
+    · show ((s.comments.filter (·.pos < prev.1)).toList.map (·.pos)).Pairwise (· < ·)
+      rw [Array.toList_filter]
+      exact (hs.sorted.sublist ((List.filter_sublist).map _))
+    · intro c hc
+      have hc' : c ∈ (s.comments.filter (·.pos < prev.1)).toList := hc
+      rw [Array.toList_filter, List.mem_filter] at hc'
+      have : c.pos < prev.1 := by simpa using hc'.2
+      exact this
   have e : goback prev s = (match scanNext s1 with
       | (.ok c, s2) => setCurrent c s2
       | (.error _, s2) => (.error (.panic "goback: unwrap on Err"), s2)) := by
@@ -132,13 +192,13 @@ theorem goback_establishes (prev : Nat × Bool) (hg : GoodMark src prev) (s : PS
   have e2 : scanNext s1 = liftS s1.scan.nextToken.1
       { s1 with prevPos := s1.scan.preback, scan := s1.scan.nextToken.2, steps := s1.steps + 1 } := rfl
   have hv' : s1.scan.nextToken.1 = .ok v := hv
-  have hest := scanNext_establishes (src := src) s1 hsrc
+  have hest := scanNext_establishes (src := src) s1 h01
   rw [e2, hv'] at hest ⊢
   simp only [liftS] at hest ⊢
   have hp : ∀ st : PState, (Pure.pure v : P (Option (Nat × Token))) st = (.ok v, st) := fun _ => rfl
   rw [hp] at hest ⊢
   simp only at hest ⊢
-  exact ⟨hest.src_eq, hest.mark⟩
+  exact hest.1.congr rfl rfl rfl
 
 /-- after a caught error: going back to a good mark re-establishes the invariant -/
 theorem T0.goback_bind {β} (prev : Nat × Bool) (hg : GoodMark src prev) {k : Unit → P β} {Q : β → PState → Prop}
@@ -147,7 +207,7 @@ theorem T0.goback_bind {β} (prev : Nat × Bool) (hg : GoodMark src prev) {k : U
   have := goback_establishes prev hg s hs
   show match (Bind.bind (goback prev) k) s with
     | (.ok a, s') => Inv src s' ∧ Q a s'
-    | (.error e, s') => isPanic e = false ∧ s'.scan.src = src
+    | (.error e, s') => isPanic e = false ∧ Inv0 src s'
   simp only [Bind.bind]
   cases hgb : goback prev s with
   | mk r s1 =>
@@ -157,21 +217,22 @@ theorem T0.goback_bind {β} (prev : Nat × Bool) (hg : GoodMark src prev) {k : U
     | ok a => exact hk s1 this trivial
 
 /-- after a caught error: a step that does not look at the mark (level bookkeeping), then an error -/
-theorem T0.modify_throw {β} (f : PState → PState) (hf : ∀ s, (f s).scan = s.scan) (e : PErr) (he : isPanic e = false)
+theorem T0.modify_throw {β} (f : PState → PState) (hf : ∀ s, (f s).scan = s.scan ∧ (f s).comments = s.comments)
+    (e : PErr) (he : isPanic e = false)
     {Q : β → PState → Prop} : T0 src (P.modify f >>= fun _ => (P.throw e : P β)) Q := by
   intro s hs
   show match (Bind.bind (P.modify f) fun _ => (P.throw e : P β)) s with
     | (.ok a, s') => Inv src s' ∧ Q a s'
-    | (.error e, s') => isPanic e = false ∧ s'.scan.src = src
+    | (.error e, s') => isPanic e = false ∧ Inv0 src s'
   simp only [Bind.bind, P.modify, P.throw]
-  exact ⟨he, by rw [hf]; exact hs⟩
+  exact ⟨he, hs.congr (hf s).1 (hf s).2⟩
 
 macro_rules | `(tactic| hstep0) => `(tactic| (with_reducible refine T0.goback_bind _ (by assumption) ?_))
-macro_rules | `(tactic| hstep0) => `(tactic| (unfold decExprLevel; refine T0.modify_throw _ ?_ _ ?_; (intro _; rfl); simp_all))
+macro_rules | `(tactic| hstep0) => `(tactic| (unfold decExprLevel; refine T0.modify_throw _ ?_ _ ?_; (intro _; exact ⟨rfl, rfl⟩); simp_all))
 
 theorem goback_spec (prev : Nat × Bool) (hg : GoodMark src prev) : T src Tr (goback prev) (fun _ _ => True) := by
   intro s hi _
-  have := goback_establishes prev hg s hi.src_eq
+  have := goback_establishes prev hg s hi.toInv0
   cases hgb : goback prev s with
   | mk r s1 =>
     rw [hgb] at this
@@ -195,11 +256,28 @@ theorem drainComments_spec : T src Tr drainComments (fun _ _ => True) := by
   refine T.set _ ?_
   intro s hi hr
   obtain ⟨rfl, _⟩ := hr
-  exact ⟨⟨hi.src_eq, hi.mark⟩, trivial⟩
+  exact ⟨hi.congr rfl rfl rfl, trivial⟩
 
 theorem lineEndComment_spec : T src Tr lineEndComment (fun _ _ => True) := by
   unfold lineEndComment
-  hoare
+  refine T.bind currentPos_spec (fun pos => ?_)
+  refine T.bind (trueLine_spec pos) (fun line0 => ?_)
+  refine T.bindP preback_spec ⟨fun start hstart => ?_⟩
+  refine T.bind (currentIs_spec _) (fun b => ?_)
+  dsimp only
+  refine T.ite (fun _ => T.pure _ (fun _ _ => trivial)) (fun _ => ?_)
+  refine T.bind (T.anyQ scanNext_spec) (fun tok => ?_)
+  split
+  · hoare
+  · rename_i p text
+    refine T.bind (T.modifyF _ (fun _ => ⟨rfl, rfl, rfl⟩) (fun _ h => h)) (fun _ => ?_)
+    refine T.bind (trueLine_spec p) (fun line1 => ?_)
+    refine T.ite (fun _ => ?_) (fun _ => ?_)
+    · refine T.bind (Q1 := fun _ _ => True)
+        (T.pre (T.push_comment _ (fun s h => h)) (fun s hs => (hs p text rfl))) (fun _ => ?_)
+      hoare
+    · hoare
+  · hoare
 
 theorem identifier_spec (site : String) : T src Tr (identifier site) (fun _ _ => True) := by
   unfold identifier
